@@ -23,7 +23,7 @@ TRUSTED_BASE = [
 ASSUMPTIONS = ["quantities above 64 are not expanded by the specification matcher (reported as undecided and skipped)", "'^' and '$' are excluded (disputed reading)"]
 TECHNIQUE = "Coq I-Regexp semantics with a derivative matcher proved correct, used as oracle against match()/search(); model of map_re; regenerated skeleton facts (entry point, flags); Coq theorems on map_re"
 LEVEL = "proof"
-LEVEL_TEXT = ("Proved: the specification matcher decides the I-Regexp language (C11_oracle_correct), map_re leaves a pattern without unescaped dots untouched and never changes class contents (Props/C11.v), "
+LEVEL_TEXT = ("Proved: the specification matcher decides the I-Regexp language (C11_oracle_correct), map_re replaces exactly the dots that are neither escaped nor inside a character class and copies everything else, for every pattern read as escape pairs / classes / dots / other characters (C11_map_re_exact, C11_map_re_lexed; Proofs/MapReExact.v), "
               "search/match pass no dialect flags (regenerated). Partial, stated as such: the third-party engines are not modelled; their behaviour is validated against the proved oracle on generated patterns.")
 LEVEL_NOTE = "Partial: engines are an assumption validated by differential testing. Trusted: Coq kernel; Spec/IRegexp.v as a reading of RFC 9485; extraction and driver."
 
